@@ -188,7 +188,7 @@ func main() {
 		},
 		Cases: func(tier string) int {
 			if tier == "thorough" {
-				return 12000
+				return 8000
 			}
 			return 400
 		},
